@@ -1,6 +1,8 @@
 package main
 
 import (
+	"go/types"
+	"regexp"
 	"context"
 	"encoding/json"
 	"flag"
@@ -30,6 +32,7 @@ type Baseline struct {
 type BaselineEntry struct {
 	Solver string   `json:"solver"`
 	Props  []string `json:"props"`
+	SeenBy []string `json:"seen_by,omitempty"` // properties whose baseline run generated and discharged the obligation
 }
 
 type checkCfg struct {
@@ -60,7 +63,7 @@ func contractsFor(specs *Specs, prop string) []*Contract {
 		if c.External || c.Trusted {
 			continue
 		}
-		rel := hasProp(c.Props, prop) || hasProp(c.FrameProps, prop)
+		rel := hasProp(c.Props, prop) || hasProp(c.FrameProps, prop) || hasProp(c.SweepProps, prop)
 		for _, cl := range append(append([]*Clause{}, c.Ensures...), c.Requires...) {
 			if hasProp(cl.Props, prop) {
 				rel = true
@@ -147,6 +150,7 @@ func runCheck(cfg checkCfg) int {
 		fmt.Fprintln(os.Stderr, "load error:", err)
 		return 2
 	}
+	ld.expandSweeps(specs)
 	loadSecs := time.Since(start).Seconds()
 	cts := contractsFor(specs, cfg.prop)
 	work, _ := os.MkdirTemp("", "cedarvc-"+cfg.prop+"-")
@@ -319,7 +323,7 @@ func runCheck(cfg checkCfg) int {
 	// obligations of the baseline that are no longer generated
 	var gone []string
 	for name, be := range baseline.Obligations {
-		if !hasProp(be.Props, cfg.prop) {
+		if !hasProp(be.SeenBy, cfg.prop) {
 			continue
 		}
 		found := false
@@ -334,6 +338,55 @@ func runCheck(cfg checkCfg) int {
 		}
 	}
 	sort.Strings(gone)
+	// a labelled obligation (postcondition, invariant, frame, in-body assert, callee precondition, lemma) that was
+	// discharged at baseline time and is no longer generated is a violation: the code it pinned down is gone
+	safetyName := regexp.MustCompile(`#(index|slice|make|alloc|panic|divzero|typeassert|nilmap|overflow|recursion|f2i|guarded_by)#[-\w]*\d+`)
+	for _, name := range gone {
+		if cfg.writeBase {
+			// re-baselining: this property no longer generates the entry
+			be := baseline.Obligations[name]
+			var keep []string
+			for _, p := range be.SeenBy {
+				if p != cfg.prop {
+					keep = append(keep, p)
+				}
+			}
+			be.SeenBy = keep
+			if len(keep) == 0 {
+				delete(baseline.Obligations, name)
+			} else {
+				baseline.Obligations[name] = be
+			}
+			continue
+		}
+		if safetyName.MatchString(name) {
+			continue
+		}
+		o := &Obl{Name: name, Kind: "missing-obligation"}
+		path := writeReplay(cfg.prop, o, &OblResult{Obl: o, Status: "not-generated", Raw: "the obligation was discharged on the baseline tree and the current tree no longer generates it (the call site, loop or function it is attached to has gone)"})
+		violations = append(violations, fmt.Sprintf("VIOLATION property=%s replay=%s no-failing-input-found", cfg.prop, path))
+		fmt.Printf("  failed obligation: %s status=not-generated\n", name)
+		if exit == 0 {
+			exit = 1
+		}
+	}
+	// a contract whose function no longer exists cannot be checked at all
+	for _, k := range missing {
+		if i := strings.LastIndex(k, "."); i > 0 && !strings.HasPrefix(k, "(") {
+			if t := ld.lookupType(k[:i]); t != nil {
+				if _, isIface := t.Underlying().(*types.Interface); isIface {
+					continue // interface method contract: applied at invoke sites, proved by refinement
+				}
+			}
+		}
+		o := &Obl{Name: k + "#contract-target-missing", Kind: "missing-function"}
+		path := writeReplay(cfg.prop, o, &OblResult{Obl: o, Status: "not-generated", Raw: "a contract tagged with this property names a function that the current tree does not define"})
+		violations = append(violations, fmt.Sprintf("VIOLATION property=%s replay=%s no-failing-input-found", cfg.prop, path))
+		fmt.Printf("  failed obligation: %s status=not-generated\n", o.Name)
+		if exit == 0 {
+			exit = 1
+		}
+	}
 	for _, se := range specErrs {
 		fmt.Println("SPEC-ERROR:", se)
 	}
@@ -408,6 +461,13 @@ func runCheck(cfg checkCfg) int {
 	os.WriteFile(filepath.Join(outDir(), "evidence", cfg.prop+".json"), b, 0o644)
 	if cfg.writeBase {
 		for k, v := range newBase {
+			if old, ok := baseline.Obligations[k]; ok {
+				v.SeenBy = old.SeenBy
+			}
+			if !hasProp(v.SeenBy, cfg.prop) {
+				v.SeenBy = append(v.SeenBy, cfg.prop)
+				sort.Strings(v.SeenBy)
+			}
 			baseline.Obligations[k] = v
 		}
 		bb, _ := json.MarshalIndent(baseline, "", " ")
